@@ -9,10 +9,12 @@
 import ast
 import z3
 
-from pyvc.core import SymObj, PList, PDict, ClassVal, fresh_int, fresh_bool, fresh_name, Unsupported, State, FuncVal, same_value
+from pyvc.core import SymObj, PList, PDict, ClassVal, fresh_int, fresh_bool, fresh_name, Unsupported, State, FuncVal, same_value, HARNESS_ERRORS
 from pyvc.interp_ext import LoopSpec
 from pyvc import xbuf as XB
 from . import types_vc as T
+
+zb = T.zb
 
 TU = "xobjects/typeutils.py"
 ARR = "xobjects/array.py"
@@ -47,7 +49,7 @@ def vc_allocate_on_buffer():
             for st, out in it.exec_function(con, {"size": size, "context": context, "buffer": buffer, "offset": offset}, pre=[size >= 0]):
                 ob = lambda c, g: it.oblige(st, "post", f"{c}[{label}]", g if not isinstance(g, bool) else z3.BoolVal(g))
                 check(st, out, ob, size)
-        except Unsupported as e:
+        except HARNESS_ERRORS as e:
             vc_allocate_on_buffer.undecided.append((label, str(e)[:150]))
         return it.obligations
 
@@ -75,7 +77,7 @@ def vc_allocate_on_buffer():
         ob("returns_pair", ok)
         if ok:
             ob("same_buffer", getattr(out[1][0], "uid", None) == bufa.uid)
-            ob("offset_unchanged", out[1][1] is off_e)
+            ob("offset_unchanged", same_value(out[1][1], off_e))
             ob("nothing_allocated", not it_allocs(st, bufa))
     bufa = XB.XBuf("buf", context=ctx_a)
     off_e = fresh_int("offset")
@@ -100,9 +102,9 @@ def vc_allocate_on_buffer():
             if ok:
                 b = out[1][0]
                 ob("same_buffer", getattr(b, "uid", None) == bufc.uid)
-                ob("one_allocation_of_size", len(b.allocs) == 1 and b.allocs[0][1] is size)
+                ob("one_allocation_of_size", same_value(b.allocs[0][1], size) if len(b.allocs) == 1 else False)
                 if b.allocs:
-                    ob("offset_is_allocation_result", out[1][1] is b.allocs[0][0])
+                    ob("offset_is_allocation_result", same_value(out[1][1], b.allocs[0][0]))
         obs += run(lab, bufc, ctx_a, offv, chk_alloc)
 
     # no buffer: a fresh buffer of capacity `size` on the given / default context, then one allocation
@@ -110,9 +112,11 @@ def vc_allocate_on_buffer():
         rec = getattr(st, "recorded", [])
         ok = out is not None and out[0] == "return" and isinstance(out[1], tuple)
         ob("returns_pair", ok)
-        ob("one_new_buffer_of_capacity_size", len(rec) == 1 and rec[0][0] == "new_buffer" and rec[0][2] is size)
+        # one new buffer, large enough for the object (the property does not fix its capacity beyond that)
+        ob("one_new_buffer_with_room_for_size", (XB.to_z3(rec[0][2]) >= size) if len(rec) == 1 and rec[0][0] == "new_buffer" else False)
         if ok:
-            ob("allocated_in_new_buffer", len(out[1][0].allocs) == 1 and out[1][1] is out[1][0].allocs[0][0])
+            al = out[1][0].allocs
+            ob("allocated_in_new_buffer", z3.And(zb(same_value(out[1][1], al[0][0])), zb(same_value(al[0][1], size))) if len(al) == 1 else False)
     obs += run("no_buffer_given_context", None, ctx_a, None, chk_fresh)
     obs += run("no_buffer_default_context", None, None, None, chk_fresh)
     vc_allocate_on_buffer.interps = its
@@ -266,7 +270,7 @@ def vc_array_writer():
                     for (old, new, at) in getattr(st, "word_writes", []):
                         XB.same_word(st, new, b.mem, at)
                     ob("frame", T.forall_x(lambda x: z3.Implies(z3.Or(x < o, x >= o + size), b.mem[x] == m0[x])))
-            except Unsupported as e:
+            except HARNESS_ERRORS as e:
                 vc_array_writer.undecided.append((lab, str(e)[:160]))
             obs += it.obligations
     vc_array_writer.interps = its
@@ -346,7 +350,7 @@ def vc_setters():
                                     ob("frame_is_the_field_extent", T.forall_x(lambda x: z3.Implies(z3.Or(x < o + fobj.attrs["offset"], x >= o + fobj.attrs["offset"] + tcs[k].static_size),
                                                                                                  b.mem[x] == m0[x])))
                         fobj.attrs["readonly"] = False
-            except Unsupported as e:
+            except HARNESS_ERRORS as e:
                 vc_setters.undecided.append((lab, str(e)[:160]))
             obs += it.obligations
     # ---- array items (statically sized items, no _update)
@@ -414,7 +418,7 @@ def vc_setters():
                                 ob("written_size_is_item_size", r[3] == w)
                                 ob("item_extent_inside_data_area", z3.And(addr >= o + D, addr + w <= o + D + w * n_items))
                                 ob("frame_is_the_item_extent", T.forall_x(lambda x: z3.Implies(z3.Or(x < addr, x >= addr + w), b.mem[x] == m0[x])))
-            except Unsupported as e:
+            except HARNESS_ERRORS as e:
                 vc_setters.undecided.append((lab, str(e)[:160]))
             obs += it.obligations
     vc_setters.interps = its
@@ -513,7 +517,7 @@ def vc_array_inspect_args():
                             ob("no_value", a.get("value") is None)
                         else:
                             ob("value_kept", a.get("value") is args[0])
-                except Unsupported as e:
+                except HARNESS_ERRORS as e:
                     vc_array_inspect_args.undecided.append((lab, str(e)[:160]))
                 obs += it.obligations
     vc_array_inspect_args.interps = its
@@ -612,7 +616,7 @@ def vc_handle_equals_view():
                             for kk, (x, y) in enumerate(zip(hs, vs)):
                                 ob(f"{attr}{kk}_equal", x == y)
                     it.contract = con
-            except Unsupported as e:
+            except HARNESS_ERRORS as e:
                 vc_handle_equals_view.undecided.append((lab, str(e)[:160]))
             obs += it.obligations
     vc_handle_equals_view.interps = its
@@ -689,11 +693,14 @@ def vc_struct_copy():
                         ob = lambda c, g: it.oblige(st, "post", f"{c}[{lab}]", g if not isinstance(g, bool) else z3.BoolVal(g))
                         wr = [r for r in getattr(st, "recorded", []) if r[0] == "write"]
                         ob("source_buffer_not_written", z3.eq(sb.mem, s0))
-                        if not has_refs:
-                            ob("no_field_rebuilt", len(wr) == 0)
+                        if has_refs:
+                            # a byte copy would keep the relative offsets of the references, which then point from the new slots
+                            ob("class_with_references_is_never_byte_copied", len(wr) > 0)
+                        if len(wr) == 0:
                             ob("bytes_copied", T.forall_x(lambda x: z3.Implies(z3.And(0 <= x, x < ssize), b.mem[o + x] == s0[so + x])))
                             ob("frame", T.forall_x(lambda x: z3.Implies(z3.Or(x < o, x >= o + ssize), b.mem[x] == m0[x])))
                         else:
+                            # (a reference-free class may be rebuilt field by field as well: same obligations as for a class with references)
                             ob("every_field_rebuilt_through_its_type", sorted(r[1] for r in wr) == [f"T{k}" for k in range(n)])
                             rd = [r for r in getattr(st, "recorded", []) if r[0] == "read"]
                             ob("field_values_read_from_the_source", len(rd) == n and all(getattr(r[2], "uid", None) == sbuf.uid for r in rd))
@@ -705,7 +712,7 @@ def vc_struct_copy():
                                 ob("size_word", XB.W8(b.mem, o) == ssize)
                                 for k in dyn[1:]:
                                     ob(f"offset_word_field{k}", XB.W8(b.mem, o + F[k].attrs["offset"]) == offs.items[k])
-                except Unsupported as e:
+                except HARNESS_ERRORS as e:
                     vc_struct_copy.undecided.append((lab, str(e)[:160]))
                 obs += [x for x in it.obligations if x is not None]
     vc_struct_copy.interps = its
@@ -877,7 +884,7 @@ def vc_array_writer_dyn():
                         continue
                     b = it._relocate(st, buf)
                     it.oblige(st, "post", f"frame[{lab}]", T.forall_x(lambda x: z3.Implies(z3.Or(x < o, x >= o + size), b.mem[x] == m0[x])))
-            except Unsupported as e:
+            except HARNESS_ERRORS as e:
                 vc_array_writer_dyn.undecided.append((lab, str(e)[:160]))
             obs += it.obligations
     vc_array_writer_dyn.interps = its
@@ -964,7 +971,7 @@ def vc_struct_handle_equals_view():
                                 for kk in dyn[1:]:
                                     ob(f"offset{kk}_equal", ho.items[kk] == vo.items[kk])
                     it.contract = con
-            except Unsupported as e:
+            except HARNESS_ERRORS as e:
                 vc_struct_handle_equals_view.undecided.append((lab, str(e)[:160]))
             obs += it.obligations
     vc_struct_handle_equals_view.interps = its
